@@ -254,6 +254,32 @@ def sloppy_model(rnd, size):
     return model
 
 
+HASHSEED_CODE = '''
+import json, sys
+from bare_script import lint_script
+print(json.dumps([lint_script(m) for m in json.load(sys.stdin)]))
+'''
+
+
+def check_hash_seeds(models, seeds=(1, 2, 3, 4)):
+    import json
+    import os
+    import subprocess
+    import sys
+    here = [impl.bs.lint_script(m) for m in models]
+    src = os.path.dirname(os.path.dirname(impl.bs.module.__file__))
+    for hs in seeds:
+        r = subprocess.run([sys.executable, '-c', HASHSEED_CODE], input=json.dumps(models), capture_output=True, text=True,
+                           env=dict(os.environ, PYTHONPATH=src, PYTHONHASHSEED=str(hs)), timeout=300)
+        if r.returncode != 0:
+            raise Violation('lint_script failed in a fresh process: %s' % r.stderr[-200:], {'kind': 'hashseed', 'models': models[:1]}, 'hashseed-fails')
+        there = json.loads(r.stdout)
+        for m, a, b in zip(models, here, there):
+            if a != b:
+                raise Violation('the same model gives %r in this process and %r in a process with PYTHONHASHSEED=%d' % (a[:4], b[:4], hs),
+                                {'kind': 'hashseed', 'model': m, 'hashseed': hs}, 'warnings-depend-on-hash-seed')
+
+
 def plan(tier):
     k = 6 if tier == 'quick' else 16
     specs = [{'kind': 'programs', 'n': 160 if tier == 'quick' else 15000, 'k': i} for i in range(10 if tier == 'quick' else 16)]
@@ -264,6 +290,22 @@ def plan(tier):
 
 def run_shard(ctx, spec):
     if spec['kind'] == 'shipped':
+        # models with several warnings of each kind (>= 2 unused variables per function, several labels ...) linted under other hash seeds
+        rnd = random.Random(ctx.seed * 211)
+        batch = []
+        for i in range(40 if ctx.tier == 'quick' else 400):
+            m = sloppy_model(rnd, 4)
+            for s_ in m['statements']:
+                if 'function' in s_:
+                    for j, nm in enumerate(rnd.sample(['width', 'height', 'title', 'total', 'margin', 'footer', 'zeta', 'alpha'], rnd.randint(2, 6))):
+                        s_['function']['statements'].insert(rnd.randint(0, len(s_['function']['statements'])), {'expr': {'name': nm, 'expr': {'number': float(j)}}})
+            batch.append(m)
+        try:
+            check_hash_seeds(batch)
+        except Violation as v:
+            ctx.violation(v)
+        for i, m in enumerate(batch):
+            ctx.case(digest(m), True, ['hash-seed-independence'])
         for name in sorted(impl.include_names()):
             if name.endswith('.bare'):
                 model = impl.bs.parse_script(impl.include_text(name))
@@ -304,4 +346,7 @@ def run_shard(ctx, spec):
 
 def replay(detail):
     from pbt.common.core import dec
+    if detail.get('kind') == 'hashseed':
+        check_hash_seeds([detail['model']] if 'model' in detail else detail['models'])
+        return
     check_model(detail['model'], dec(detail.get('globals', {})))
